@@ -146,8 +146,27 @@ fn expected_entry(world: &World, dic: usize, row: usize) -> Vec<Option<String>> 
     ]
 }
 
+fn world_inputs(seed: u64, wi: u64, miri: bool) -> (crate::model::Matrix, crate::model::Lexicon, Rng) {
+    let mut rng = Rng::derive(seed, 0xC05, wi);
+    let dopts = DictOpts { cost_extremes: true, max_entries: if miri { 10 } else { 40 }, ..DictOpts::default() };
+    let matrix = dictgen::gen_matrix(&mut rng, &dopts);
+    let mut sys = dictgen::gen_system(&mut rng, &dopts, &matrix);
+    boundary_rows(&mut rng, &mut sys, matrix.nid() as i64, wi % 16 == 0 && !miri);
+    (matrix, sys, rng)
+}
+
 pub fn run(ctx: &Ctx, rep: &mut Report) {
     let miri = ctx.stage == "miri";
+    if ctx.stage == "child" {
+        // second process of the determinism check: compile world `only` and print a digest of the bytes
+        let wi = ctx.only.unwrap_or(0);
+        let (matrix, sys, _) = world_inputs(ctx.seed, wi, false);
+        match env::compile_system(sys.to_csv(None).as_bytes(), matrix.to_text().as_bytes()) {
+            Ok(b) => println!("DIGEST {:016x} {}", fnv(&b), b.len()),
+            Err(e) => println!("REJECTED {:?}", e),
+        }
+        std::process::exit(0);
+    }
     let n_worlds = match ctx.stage.as_str() {
         "miri" => ctx.nshards,
         "valgrind" => ctx.nshards * 3,
@@ -159,12 +178,9 @@ pub fn run(ctx: &Ctx, rep: &mut Report) {
             rep.notes.push(format!("stopped at world {} (time budget)", wi));
             break;
         }
-        let mut rng = Rng::derive(ctx.seed, 0xC05, wi);
         rep.progress_idx(wi, "C05 world");
         let dopts = DictOpts { cost_extremes: true, max_entries: if miri { 10 } else { 40 }, ..DictOpts::default() };
-        let matrix = dictgen::gen_matrix(&mut rng, &dopts);
-        let mut sys = dictgen::gen_system(&mut rng, &dopts, &matrix);
-        boundary_rows(&mut rng, &mut sys, matrix.nid() as i64, wi % 16 == 0 && !miri);
+        let (matrix, sys, mut rng) = world_inputs(ctx.seed, wi, miri);
         let mut popts = PluginOpts::none();
         popts.n_users = if miri { rng.below(2) } else { *rng.pick(&[0usize, 0, 1, 2, 3]) };
         let world = match guard(|| build_world_from(&mut rng, &dopts, matrix, sys, popts, Place::Owned)) {
@@ -252,6 +268,25 @@ pub fn run(ctx: &Ctx, rep: &mut Report) {
             }
             Ok(Err(e)) => rep.violation("nondeterministic_output", "compile(system)", &format!("second compilation failed: {:?}", e), "", scenario("")),
             Err(p) => rep.skipped_panic(&p, json!({"world": wi, "stage": "recompile"})),
+        }
+        // ... and once more in a second process (different address space, different hash seeds)
+        if wi % 8 == 0 && !miri && ctx.stage == "main" {
+            if let Ok(exe) = std::env::current_exe() {
+                let out = std::process::Command::new(exe).args(["C05", "--stage", "child", "--seed", &ctx.seed.to_string(), "--only", &wi.to_string(), "--out", "/dev/null"]).output();
+                if let Ok(o) = out {
+                    let txt = String::from_utf8_lossy(&o.stdout).to_string();
+                    let mine = format!("DIGEST {:016x} {}", fnv(&world.sys_bytes), world.sys_bytes.len());
+                    if txt.trim().starts_with("DIGEST") {
+                        rep.count("recompilations_in_a_second_process", 1);
+                        if txt.trim() != mine {
+                            rep.violation("nondeterministic_output", "compile(system) in a second process", &format!("this process: {}, second process: {}", mine, txt.trim()), "", scenario(""));
+                            world_ok = false;
+                        }
+                    } else {
+                        rep.notes.push(format!("child compile: {}", clip(&txt, 100)));
+                    }
+                }
+            }
         }
         if !world.users.is_empty() {
             let pool = dictgen::pos_pool();
